@@ -1176,7 +1176,9 @@ fn run_inner(case: &StressCase) -> SResult {
                             }
                         }
                         post.enter(t, 3);
-                        let r1 = api2.remove(1);
+                        // (aimed at an entry the closed cache still holds, if a racing insert left one)
+                        let target = before.entries.first().map(|e| e.value.key as u64).unwrap_or(1);
+                        let r1 = api2.remove(target);
                         post.leave(t);
                         post.enter(t, 7);
                         let r2 = api2.clear();
@@ -1789,7 +1791,21 @@ fn quiescent_invariants(case: &StressCase, api: &Arc<Box<dyn Api>>, sh: &Arc<Sha
             return Some(SResult::violation(props, "store_eq_policy", format!("at quiescence resident keys {:?} != charged keys {:?}", sk, pk)));
         }
         if snap.len != sk.len() {
-            return Some(SResult::violation(&["C06"], "len_eq_entries", format!("len() {} != resident entries {}", snap.len, sk.len())));
+            // the snapshot lists the entries first and reads len() afterwards: a difference that
+            // does not persist is a store still changing (not yet quiescent), not a wrong len()
+            let mut persistent = true;
+            for _ in 0..3 {
+                std::thread::sleep(tick * 2 + Duration::from_millis(1));
+                let again = api.snapshot();
+                if again.len == again.entries.len() {
+                    persistent = false;
+                    break;
+                }
+            }
+            if persistent {
+                return Some(SResult::violation(&["C06"], "len_eq_entries", format!("len() {} != resident entries {} (and still so in three later snapshots)", snap.len, sk.len())));
+            }
+            return None;
         }
     }
     // conservation
